@@ -43,6 +43,28 @@ func (x *Exec) walkDir(call *ast.CallExpr, args []*Val, st *St, fr *Frame, k kva
 	if !s1.dead {
 		e := x.fresh("walk.err", SRef)
 		x.assume(s1, Neq(e, Null))
+		// the error comes from the operating system: it is not a value of an error type declared in the packages under
+		// verification (verifyError, inputFormatError, ...)
+		errIface, _ := types.Universe.Lookup("error").Type().Underlying().(*types.Interface)
+		for _, p := range w.Main {
+			sc := p.Types.Scope()
+			for _, nm := range sc.Names() {
+				tn, ok := sc.Lookup(nm).(*types.TypeName)
+				if !ok || tn.IsAlias() {
+					continue
+				}
+				n, ok := tn.Type().(*types.Named)
+				if !ok || n.TypeParams().Len() > 0 {
+					continue
+				}
+				if _, isStruct := n.Underlying().(*types.Struct); !isStruct {
+					continue
+				}
+				if errIface != nil && (types.Implements(n, errIface) || types.Implements(types.NewPointer(n), errIface)) {
+					x.assume(s1, Neq(mk("typeOf", SType, e), w.TypeConst(n)))
+				}
+			}
+		}
 		// the kind of error is left open (ErrNotExist for a missing directory, ENOTDIR for a regular file, ...)
 		s1.note("fs.WalkDir: the directory is missing; the callback sees the error")
 		callFn(s1, StrLit("."), e, func(s *St, r *Val) { k(s, r) })
